@@ -48,6 +48,13 @@ func refOf(v ssa.Value) lockRef {
 		case *ssa.ChangeType:
 			v = x.X
 			continue
+		case *ssa.Alloc:
+			// a local cell written exactly once (e.g. a receiver/parameter spilled because a
+			// closure captures it): every load reads that value
+			if sv := singleStore(x); sv != nil {
+				v = sv
+				continue
+			}
 		}
 		return lockRef{v, path}
 	}
@@ -399,4 +406,57 @@ func (c *Ctx) locksetString(s lockset) string {
 	}
 	sort.Strings(parts)
 	return "{" + strings.Join(parts, ", ") + "}"
+}
+
+// singleStore: the only value ever stored into local cell al (also looking into closures
+// that capture the cell); nil if it is written more than once or escapes otherwise.
+func singleStore(al *ssa.Alloc) ssa.Value {
+	refs := al.Referrers()
+	if refs == nil {
+		return nil
+	}
+	var val ssa.Value
+	n := 0
+	for _, r := range *refs {
+		switch x := r.(type) {
+		case *ssa.Store:
+			if x.Addr == ssa.Value(al) {
+				n++
+				val = x.Val
+			} else {
+				return nil // the address itself is stored somewhere
+			}
+		case *ssa.UnOp:
+		case *ssa.DebugRef:
+		case *ssa.MakeClosure:
+			fn, ok := x.Fn.(*ssa.Function)
+			if !ok {
+				return nil
+			}
+			for i, b := range x.Bindings {
+				if b == ssa.Value(al) && i < len(fn.FreeVars) {
+					if fr := fn.FreeVars[i].Referrers(); fr != nil {
+						for _, y := range *fr {
+							if st, ok := y.(*ssa.Store); ok && st.Addr == ssa.Value(fn.FreeVars[i]) {
+								return nil
+							}
+							if _, ok := y.(*ssa.UnOp); !ok {
+								if _, ok := y.(*ssa.Store); !ok {
+									if _, ok := y.(*ssa.DebugRef); !ok {
+										return nil
+									}
+								}
+							}
+						}
+					}
+				}
+			}
+		default:
+			return nil
+		}
+	}
+	if n != 1 {
+		return nil
+	}
+	return val
 }
